@@ -347,20 +347,20 @@ Lemma take_from_miss : forall op l n ty val, existsb (word_is op) l = false ->
   take_from op (l, n, ty, val) = Some (l, n, ty, val).
 Proof. intros. unfold take_from. rewrite (position_none _ _ _ H). reflexivity. Qed.
 
-Lemma take_from_hit : forall op pre s1 s2 f post ty val,
+Lemma take_from_hit : forall op pre s2 f post ty val,
   existsb (word_is op) pre = false ->
-  take_from op (pre ++ (s1, op) :: (s2, f) :: post,
-                length (pre ++ (s1, op) :: (s2, f) :: post), ty, val)
+  take_from op (pre ++ ([], op) :: (s2, f) :: post,
+                length (pre ++ ([], op) :: (s2, f) :: post), ty, val)
   = Some (pre ++ post, length (pre ++ post), op, f).
 Proof.
-  intros op pre s1 s2 f post ty val H. unfold take_from.
-  rewrite (position_app _ (word_is op) pre (s1, op) _ H)
-    by (unfold word_is; apply str_eqb_refl).
+  intros op pre s2 f post ty val H. unfold take_from.
+  rewrite (position_app _ (word_is op) pre ([], op) _ H)
+    by (unfold word_is; cbn [fst snd]; apply str_eqb_refl).
   rewrite vec_remove_app.
-  assert (L : Nat.ltb (length pre) (Nat.sub (length (pre ++ (s1, op) :: (s2, f) :: post)) 1) = true).
+  assert (L : Nat.ltb (length pre) (Nat.sub (length (pre ++ ([], op) :: (s2, f) :: post)) 1) = true).
   { apply PeanoNat.Nat.ltb_lt. rewrite app_length. cbn [length]. lia. }
   rewrite L. rewrite vec_remove_app. cbn [snd].
-  replace (Nat.sub (Nat.sub (length (pre ++ (s1, op) :: (s2, f) :: post)) 1) 1)
+  replace (Nat.sub (Nat.sub (length (pre ++ ([], op) :: (s2, f) :: post)) 1) 1)
     with (length (pre ++ post)); [reflexivity|].
   rewrite !app_length. cbn [length]. lia.
 Qed.
@@ -379,15 +379,15 @@ Proof.
 Qed.
 
 (** cmd ... < f ...   (any separators, any f - even f = [<]) *)
-Theorem C04_parse_from_lt : forall pre post s1 s2 f, no_from pre -> no_from post ->
-  from_tokens (pre ++ [(s1, s_lt); (s2, f)] ++ post)
+Theorem C04_parse_from_lt : forall pre post s2 f, no_from pre -> no_from post ->
+  from_tokens (pre ++ [([], s_lt); (s2, f)] ++ post)
   = set_from (Some (s_lt, f)) (from_tokens (pre ++ post)).
 Proof.
-  intros pre post s1 s2 f Hpre Hpost. cbn [app].
+  intros pre post s2 f Hpre Hpost. cbn [app].
   rewrite (from_tokens_none (pre ++ post) (no_from_app _ _ Hpre Hpost)).
   destruct (no_from_word pre Hpre) as [P1 P3], (no_from_word post Hpost) as [Q1 Q3].
   unfold from_tokens.
-  assert (E : existsb is_from_tok (pre ++ (s1, s_lt) :: (s2, f) :: post) = true).
+  assert (E : existsb is_from_tok (pre ++ ([], s_lt) :: (s2, f) :: post) = true).
   { rewrite existsb_app. cbn. now rewrite orb_true_r. }
   rewrite E. cbn [ft_while negb]. rewrite take_from_hit by exact P1.
   rewrite take_from_miss by (rewrite existsb_app, P3, Q3; reflexivity).
@@ -397,33 +397,33 @@ Qed.
 
 (** cmd ... <<< f ...  for every f other than the one-character word [<]
     (that word is taken for an input operator whatever its quoting). *)
-Theorem C04_parse_from_lt3 : forall pre post s1 s2 f, no_from pre -> no_from post ->
+Theorem C04_parse_from_lt3 : forall pre post s2 f, no_from pre -> no_from post ->
   f <> s_lt ->
-  from_tokens (pre ++ [(s1, s_lt3); (s2, f)] ++ post)
+  from_tokens (pre ++ [([], s_lt3); (s2, f)] ++ post)
   = set_from (Some (s_lt3, f)) (from_tokens (pre ++ post)).
 Proof.
-  intros pre post s1 s2 f Hpre Hpost Hf. cbn [app].
+  intros pre post s2 f Hpre Hpost Hf. cbn [app].
   rewrite (from_tokens_none (pre ++ post) (no_from_app _ _ Hpre Hpost)).
   destruct (no_from_word pre Hpre) as [P1 P3], (no_from_word post Hpost) as [Q1 Q3].
   unfold from_tokens.
-  assert (E : existsb is_from_tok (pre ++ (s1, s_lt3) :: (s2, f) :: post) = true).
+  assert (E : existsb is_from_tok (pre ++ ([], s_lt3) :: (s2, f) :: post) = true).
   { rewrite existsb_app. cbn. now rewrite orb_true_r. }
   rewrite E. cbn [ft_while negb].
   rewrite take_from_miss.
   2:{ rewrite existsb_app, P1. cbn [existsb orb]. rewrite Q1.
-      unfold word_is at 2. cbn [snd]. apply str_eqb_neq in Hf. rewrite Hf. reflexivity. }
+      unfold word_is at 2. cbn [fst snd]. apply str_eqb_neq in Hf. destruct s2; [rewrite Hf|]; reflexivity. }
   rewrite take_from_hit by exact P3.
   cbn [fst]. rewrite (no_from_app _ _ Hpre Hpost). rewrite ft_while_false.
   destruct (tokens_to_redirections (pre ++ post)); reflexivity.
 Qed.
 
 (** Both input spellings in one statement. *)
-Theorem C04_parse_from : forall op pre post s1 s2 f,
+Theorem C04_parse_from : forall op pre post s2 f,
   (op = s_lt \/ (op = s_lt3 /\ f <> s_lt)) -> no_from pre -> no_from post ->
-  from_tokens (pre ++ [(s1, op); (s2, f)] ++ post)
+  from_tokens (pre ++ [([], op); (s2, f)] ++ post)
   = set_from (Some (op, f)) (from_tokens (pre ++ post)).
 Proof.
-  intros op pre post s1 s2 f [->|[-> Hf]] Hpre Hpost.
+  intros op pre post s2 f [->|[-> Hf]] Hpre Hpost.
   - now apply C04_parse_from_lt.
   - now apply C04_parse_from_lt3.
 Qed.
